@@ -108,3 +108,10 @@ def validate(programs_events, module, nproc=16, tag=None, timeout=3600, extra_fi
             else:
                 v.deviations.append((t[2], t[1], t[3] if len(t) > 3 else None))
     return v
+
+
+def monstrous(ev, limit=20000):
+    """A recorded event whose JSON is huge holds a garbage number with tens of thousands of digits (the
+    corrupt results of the pinned decimalfp, DESIGN 5.2): it is a deviation by itself and must not be
+    handed to TLC (deep recursion)."""
+    return len(json.dumps(ev)) > limit
